@@ -8,6 +8,7 @@ import (
 	"math/rand"
 	"os"
 	"runtime"
+	"strings"
 	"sync"
 	"sync/atomic"
 	"testing"
@@ -24,8 +25,8 @@ type c02Stream struct {
 	CProg int
 	H     syHProg
 	Sizes []int
-	ParkR int // index of the Recv that parks after its done-check (-1: none)
-	ParkS int // index of the Send that parks after its done-check (-1: none)
+	ParkR int  // index of the Recv that parks after its done-check (-1: none)
+	ParkS int  // index of the Send that parks after its done-check (-1: none)
 	ParkL bool // the stream's loop parks at cs.loop.read before its first Read
 }
 
@@ -196,7 +197,12 @@ func recC02(kind string, cfg c02Cfg, streams []c02Stream, steps []syStep, comple
 			}
 		}
 	}
-	return Rec{Kind: kind, Desc: map[string]any{"streams": ds, "topo": syTopos[cfg.topo], "byRef": cfg.byRef, "schedule": sySchedString(steps)},
+	desc := map[string]any{"streams": ds, "topo": syTopos[cfg.topo], "byRef": cfg.byRef, "schedule": sySchedString(steps)}
+	if syEndDump != "" && kind != "c02-free" && kind != "c02-opens" {
+		desc["end_state"] = syEndDump
+		syEndDump = ""
+	}
+	return Rec{Kind: kind, Desc: desc,
 		Obs: map[string]any{"events": nev, "complete": complete, "steps": len(steps)}, Tags: tags, Coq: coq}
 }
 
@@ -244,7 +250,7 @@ func syAwait(wg *sync.WaitGroup) (wedged bool) {
 	all := make(chan struct{})
 	go func() { wg.Wait(); close(all) }()
 	buf := make([]byte, 4<<20)
-	prev := ""
+	prev, same := "", 0
 	for spins := 0; ; spins++ {
 		select {
 		case <-all:
@@ -254,13 +260,21 @@ func syAwait(wg *sync.WaitGroup) (wedged bool) {
 		if spins%512 == 511 {
 			n := runtime.Stack(buf, true)
 			fp, quiet := syBubbleQuiet(string(buf[:n]))
+			// several identical pictures in a row (more when a goroutine waits for a mutex whose holder may be about to
+			// release it: on a heavily loaded machine two pictures were once identical in such an instant)
 			if quiet && fp == prev {
-				return true
-			}
-			if quiet {
-				prev = fp
+				same++
+				need := 5
+				if strings.Contains(fp, "sync.Mutex.Lock") {
+					need = 12
+				}
+				if same >= need {
+					return true
+				}
+			} else if quiet {
+				prev, same = fp, 0
 			} else {
-				prev = ""
+				prev, same = "", 0
 			}
 		}
 		runtime.Gosched()
@@ -275,18 +289,20 @@ func syQuiesce(wedged bool) {
 		return
 	}
 	buf := make([]byte, 4<<20)
-	prev := ""
-	for spins := 0; spins < 200000; spins++ {
+	prev, same := "", 0
+	for spins := 0; spins < 400000; spins++ {
 		if spins%256 == 255 {
 			n := runtime.Stack(buf, true)
 			fp, quiet := syBubbleQuiet(string(buf[:n]))
 			if quiet && fp == prev {
-				return
-			}
-			if quiet {
-				prev = fp
+				same++
+				if same >= 5 {
+					return
+				}
+			} else if quiet {
+				prev, same = fp, 0
 			} else {
-				prev = ""
+				prev, same = "", 0
 			}
 		}
 		runtime.Gosched()
